@@ -352,6 +352,25 @@ theorem encoderFit_classes (mlArg : Option (Lbl α)) (classes : Option (ArrKind 
           intro _ x
           simp only [mem_sortDedup, List.mem_filter, notMissing_iff]
 
+/-- **Refitting is history-free**: the outcome of a `fit` on an encoder object, and — when it
+succeeds — the state every later `transform` / `inverse_transform` works with, depend only on the
+arguments of that last `fit`, not on anything fitted or decoded before (`prev`, `prev'` arbitrary).
+The correspondence checks exactly this on the implementation: `harness/props/c16.py` re-uses one
+encoder object over sequences of `set_params → fit / fit_transform → transform → inverse_transform`
+steps and compares every step with this history-free model of that step alone, so state surviving a
+refit (e.g. a cached decoding table) shows up as a disagreement and a failed round trip. -/
+theorem encoder_refit_history_free (prev prev' : Option (Fitted α)) (mlArg : Option (Lbl α))
+    (classes : Option (ArrKind × List (Lbl α))) (y : Arr α) :
+    (refit prev mlArg classes y).1 = (refit prev' mlArg classes y).1 ∧
+    (refit prev mlArg classes y).1 = encoderFit mlArg classes y ∧
+    (∀ f, encoderFit mlArg classes y = .ok f →
+      (refit prev mlArg classes y).2 = some f ∧ (refit prev' mlArg classes y).2 = some f) ∧
+    (∀ e, encoderFit mlArg classes y = .error e → (refit prev mlArg classes y).2 = prev) := by
+  unfold refit
+  cases h : encoderFit mlArg classes y with
+  | ok f => simp
+  | error e => simp
+
 /-- **`ExtLabelEncoder`: `inverse_transform(transform(y))` reproduces `y`** for every array `y`
 (1-d or 2-d, flat row-major) on which `transform` succeeds. -/
 theorem encoder_roundtrip (f : Fitted α) (y : Arr α) (es : List Int)
